@@ -207,7 +207,7 @@ func runC07(tier, replay string) {
 		{"sql-enabled", "sql", "Enabled", false}, {"fs-suspended", "fs", "Suspended", false},
 		{"outbox-sql", "sql", "", true},
 	}
-	perVariant := r.N(30, 800)
+	perVariant := r.N(30, 400)
 	only, onlyVariant := -1, ""
 	if replay != "" {
 		b, err := os.ReadFile(replay)
